@@ -339,8 +339,17 @@ def inline_helpers(idx, mod, cls, fn):
 #   * `(lambda: E)()` is replaced by E.
 
 class _SubstAny(ast.NodeTransformer):
-    def __init__(self, mapping):
+    def __init__(self, mapping, inner_mapping=None):
         self.mapping = mapping
+        # what a lambda / nested def in the substituted code sees: a helper's parameters are bound per call (same mapping), a
+        # loop variable is looked up when the lambda RUNS - after the loop, i.e. with the value of the last iteration
+        self.inner = mapping if inner_mapping is None else inner_mapping
+
+    def visit_Lambda(self, n):
+        return _SubstAny(self.inner, self.inner).generic_visit(n)
+
+    def visit_FunctionDef(self, n):
+        return _SubstAny(self.inner, self.inner).generic_visit(n)
 
     def visit_Name(self, n):
         if n.id in self.mapping and isinstance(n.ctx, ast.Load):
@@ -389,16 +398,22 @@ def normalise_registrations(idx, mod, cls, fn, depth=0):
                 it = literals[it.id]
             if isinstance(it, (ast.List, ast.Tuple)) and not any(isinstance(e, ast.Starred) for e in it.elts):
                 out = []
-                for row in it.elts:
+
+                def row_mapping(row):
                     if isinstance(st.target, ast.Name):
-                        mapping = {st.target.id: row}
-                    elif isinstance(st.target, (ast.Tuple, ast.List)) and isinstance(row, (ast.Tuple, ast.List)) \
+                        return {st.target.id: row}
+                    if isinstance(st.target, (ast.Tuple, ast.List)) and isinstance(row, (ast.Tuple, ast.List)) \
                             and len(row.elts) == len(st.target.elts) and all(isinstance(t, ast.Name) for t in st.target.elts):
-                        mapping = {t.id: e for t, e in zip(st.target.elts, row.elts)}
-                    else:
-                        return [st]
+                        return {t.id: e for t, e in zip(st.target.elts, row.elts)}
+                    return None
+                maps = [row_mapping(row) for row in it.elts]
+                if not maps or any(m is None for m in maps):
+                    return [st]
+                for mapping in maps:
                     for b in st.body:
-                        b2 = _SubstAny(mapping).visit(copy.deepcopy(b))
+                        # a lambda written in the loop body reads the loop variable when it is called, i.e. after the loop:
+                        # it sees the LAST row (Python's late binding), not the row of its own iteration
+                        b2 = _SubstAny(mapping, maps[-1]).visit(copy.deepcopy(b))
                         out.extend(expand_stmt(b2))
                 changed[0] = True
                 return out
